@@ -127,7 +127,7 @@ Verdict(r) ==
       cGv(g) == IF iGv(g) /\ TErr(r.ool.gv[g]) /\ TouchesCycle(ev, ev.gv[g]) THEN cycle
                 ELSE IF iGv(g) /\ oGv(g) /\ MentionsForced(ev, ev.gv[g]) THEN forced ELSE ""
       cLt == IF iLt /\ oLt /\ UsesFile(ev) THEN "list_types:FILE-used" ELSE ""
-      cEmit == IF ~M.ok /\ TwoFileTypedefs(ev) THEN "emit:FILE-typedef'ed-twice" ELSE ""
+      cEmit == ""       \* no documented class: every cdef the in-line FFI accepts must be emitted
   IN IF run.bad # 0 THEN << {<<"guard", ToString(run.bad), "">>}, {} >>
      ELSE IF ~emitOk THEN << {<<"emit", r.emit, cEmit>>}, (IF M.ok THEN {<<"ool", "emit", r.emit>>} ELSE {}) >>
      ELSE <<
@@ -140,17 +140,19 @@ Verdict(r) ==
        \cup {<<"same", "gv:" \o g, "">> : g \in vSameGv},
        \* divergences
        {<<"inl", "td", n>> : n \in {n \in DOMAIN ev.td : ~iTd(n)}}
-       \cup {<<"ool", "td", n>> : n \in {n \in DOMAIN ev.td : ~oTd(n)}}
+       \* (an error of the documented eager-realization class is not a divergence of the model:
+       \*  the model does not order realizations, the class predicate TouchesCycle stands for it)
+       \cup {<<"ool", "td", n>> : n \in {n \in DOMAIN ev.td : ~oTd(n) /\ ~(TErr(r.ool.td[n]) /\ TouchesCycle(ev, ev.td[n]))}}
        \cup {<<"inl", "su", KeyStr(key)>> : key \in {key \in QSU : ~iSu(key)}}
-       \cup {<<"ool", "su", KeyStr(key)>> : key \in {key \in QSU : ~oSu(key)}}
+       \cup {<<"ool", "su", KeyStr(key)>> : key \in {key \in QSU : ~oSu(key) /\ ~(RErr(r.ool.su[KeyStr(key)]) /\ TouchesCycle(ev, key))}}
        \cup {<<"inl", "en", g>> : g \in {g \in DOMAIN ev.en : ~iEn(g)}}
        \cup {<<"ool", "en", g>> : g \in {g \in DOMAIN ev.en : ~oEn(g)}}
        \cup {<<"inl", "k", c>> : c \in {c \in AllConsts(ev) : ~iK(c)}}
        \cup {<<"ool", "k", c>> : c \in {c \in AllConsts(ev) : ~oK(c)}}
        \cup {<<"inl", "fn", f>> : f \in {f \in DOMAIN ev.fn : ~iFn(f)}}
-       \cup {<<"ool", "fn", f>> : f \in {f \in DOMAIN ev.fn : ~oFn(f)}}
+       \cup {<<"ool", "fn", f>> : f \in {f \in DOMAIN ev.fn : ~oFn(f) /\ ~(TErr(r.ool.fn[f]) /\ TouchesCycle(ev, ev.fn[f]))}}
        \cup {<<"inl", "gv", g>> : g \in {g \in DOMAIN ev.gv : ~iGv(g)}}
-       \cup {<<"ool", "gv", g>> : g \in {g \in DOMAIN ev.gv : ~oGv(g)}}
+       \cup {<<"ool", "gv", g>> : g \in {g \in DOMAIN ev.gv : ~oGv(g) /\ ~(TErr(r.ool.gv[g]) /\ TouchesCycle(ev, ev.gv[g]))}}
        \cup (IF iLt THEN {} ELSE {<<"inl", "lt", "">>}) \cup (IF oLt THEN {} ELSE {<<"ool", "lt", "">>})
        \cup (IF M.ok THEN {} ELSE {<<"ool", "emit", "model predicts failure">>})
        \cup {<<"ool", "table", x>> : x \in tabBad}
